@@ -54,6 +54,8 @@ FAllFinite(s) == CHOOSE x \in BOOLEAN : TRUE
 FClose(a, b, rtol, scale, atol) == CHOOSE x \in BOOLEAN : TRUE
 \* |a - b| / max(scale, tiny)  as a double, for reporting
 FDefect(a, b, scale) == CHOOSE x \in F64 : TRUE
+\* |a - b| / (rtol * |scale| + atol) as a double (> 1 means FClose fails; NaN/inf operands give Infinity)
+FRatio(a, b, rtol, scale, atol) == CHOOSE x \in F64 : TRUE
 \* TRUE iff the Java override is active
 FLoaded == FEq("1", "1.0")
 
